@@ -71,6 +71,7 @@ type hstate struct {
 	floats    []*constant.Float  // float constants that need more than 24 significand bits, shared by several operands
 	groups    []*ir.AttrGroupDef // attribute groups added by "attrgroup" (some empty, filled by "attrfill")
 	comdats   []*ir.ComdatDef    // comdats set on globals by "comdatset" (listed in the module only by "comdatlist")
+	allocas   []*ir.InstAlloca   // allocas created by "allocagep" (their address space is set later by "allocaas")
 }
 
 func (h *hstate) pairType() *types.StructType {
@@ -399,6 +400,30 @@ func (h *hstate) apply(s hstep) {
 			m.NamedMetadataDefs["front"] = nd
 		}
 		nd.Nodes = append(nd.Nodes, t)
+	case "allocagep":
+		// an alloca, a getelementptr on it and a load through the result: the types
+		// of the last two derive from the first
+		f := h.fn(s.F)
+		b := h.blk(f, s.B)
+		if b == nil {
+			return
+		}
+		al := ir.NewAlloca(types.NewStruct(types.I32, types.I64))
+		al.SetName(s.Name)
+		gep := ir.NewGetElementPtr(types.NewStruct(types.I32, types.I64), al, constant.NewInt(types.I32, 0), constant.NewInt(types.I32, int64(s.N%2)))
+		elem := types.Type(types.I32)
+		if s.N%2 == 1 {
+			elem = types.I64
+		}
+		ld := ir.NewLoad(elem, gep)
+		b.Insts = append(b.Insts, al, gep, ld)
+		h.allocas = append(h.allocas, al)
+	case "allocaas":
+		// the address space of an alloca is set after it was built on
+		if len(h.allocas) == 0 {
+			return
+		}
+		h.allocas[s.I%len(h.allocas)].AddrSpace = types.AddrSpace(1 + s.N%5)
 	case "attrgroup":
 		// a new attribute group (empty for even N), used by a function; IDs count down from 40 so that the list is not in ID order
 		g := &ir.AttrGroupDef{ID: int64(40 - len(h.groups))}
@@ -597,9 +622,15 @@ func genHistory(rng *rand.Rand, n int, fenced bool) []hstep {
 		funcs = append(funcs, fshape{blocks: []int{0}})
 	}
 	for len(steps) < n {
-		r := rng.Intn(130)
+		r := rng.Intn(133)
 		fi := rng.Intn(len(funcs))
 		switch {
+		case r >= 132 && !fenced:
+			steps = append(steps, hstep{Op: "allocaas", I: rng.Intn(9), N: rng.Intn(9)})
+		case r >= 130 && !fenced:
+			bi := rng.Intn(len(funcs[fi].blocks))
+			steps = append(steps, hstep{Op: "allocagep", F: fi, B: bi, Name: name(false), N: rng.Intn(9)})
+			funcs[fi].blocks[bi] += 3
 		case r >= 129:
 			steps = append(steps, hstep{Op: "comdatdrop", I: rng.Intn(9)})
 		case r >= 128:
@@ -1004,7 +1035,13 @@ func c14LiteralBuilt(r *fw.Rec) {
 		phi := &ir.InstPhi{Incs: []*ir.Incoming{ir.NewIncoming(constant.NewInt(types.I32, 1), entry), ir.NewIncoming(constant.NewInt(types.I32, 2), left)}}
 		phi.SetName("p")
 		join.Insts = append(join.Insts, phi)
-		join.NewRet(phi)
+		// calls of a void function built as struct literals (they take no number),
+		// followed by unnamed values
+		join.Insts = append(join.Insts, &ir.InstCall{Callee: target})
+		u1 := join.NewAdd(phi, constant.NewInt(types.I32, 1))
+		join.Insts = append(join.Insts, &ir.InstCall{Callee: target})
+		u2 := join.NewAdd(u1, constant.NewInt(types.I32, 2))
+		join.NewRet(u2)
 		return m, a, i, phi, f
 	}
 	type view struct{ name, text string }
@@ -1019,8 +1056,15 @@ func c14LiteralBuilt(r *fw.Rec) {
 				_ = a.String()
 				_ = i.String()
 				_ = phi.String()
+				for _, b := range f.Blocks {
+					for _, inst := range b.Insts {
+						if v, ok := inst.(value.Value); ok {
+							_ = v.Type()
+						}
+					}
+				}
 			}
-			vs = append(vs, view{"alias.LLString", a.LLString()}, view{"ifunc.LLString", i.LLString()}, view{"phi.LLString", phi.LLString()}, view{"func.LLString", f.LLString()}, view{"module", m.String()})
+			vs = append(vs, view{"alias.LLString", a.LLString()}, view{"ifunc.LLString", i.LLString()}, view{"phi.LLString", phi.LLString()}, view{"func.LLString", f.LLString()}, view{"func.LLString again", f.LLString()}, view{"module", m.String()}, view{"module printed again", m.String()})
 		})
 		if p {
 			return vs, firstLine(msg)
@@ -1036,6 +1080,14 @@ func c14LiteralBuilt(r *fw.Rec) {
 	}
 	if gotMsg != "" {
 		r.Violate(fw.Violation{Key: "observer-needed/literal-built", What: "a module with an alias, an ifunc and a phi built as struct literals prints after Type()/String() were called on them, and panics when they were not: " + gotMsg})
+		return
+	}
+	if n := len(got); n >= 4 && got[n-3].text != got[n-4].text {
+		r.Violate(fw.Violation{Key: "consecutive-prints-differ/literal-built-function", What: "two consecutive Func.LLString calls on a function holding values built as struct literals differ: " + firstDiffLines(got[n-4].text, got[n-3].text), Expected: got[n-4].text, Observed: got[n-3].text})
+		return
+	}
+	if n := len(got); n >= 2 && got[n-1].text != got[n-2].text {
+		r.Violate(fw.Violation{Key: "consecutive-prints-differ/literal-built", What: "two consecutive prints of a module holding values built as struct literals differ: " + firstDiffLines(got[n-2].text, got[n-1].text), Expected: got[n-2].text, Observed: got[n-1].text})
 		return
 	}
 	for k := range ref {
